@@ -85,6 +85,23 @@ func Tok(s string) string {
 	return b.String()
 }
 
+// UnTok is the inverse of Tok.
+func UnTok(t string) string {
+	t = strings.TrimPrefix(t, "=")
+	var b strings.Builder
+	for i := 0; i < len(t); i++ {
+		if t[i] == '%' && i+2 < len(t)+0 && i+2 <= len(t)-1+1 {
+			if v, err := strconv.ParseUint(t[i+1:i+3], 16, 8); err == nil {
+				b.WriteByte(byte(v))
+				i += 2
+				continue
+			}
+		}
+		b.WriteByte(t[i])
+	}
+	return b.String()
+}
+
 func sidTok(s string) string {
 	if s == "-" {
 		return "-"
